@@ -365,6 +365,14 @@ func (c *Ctx) Finish() int {
 	fmt.Printf("%s %s seed=%d: evaluations=%d distinct_nontrivial=%d violations=%d wall=%.1fs\n",
 		c.Prop, c.Tier, c.Seed, c.evals, c.nontrivial, len(c.violations), wall)
 	if len(c.violations) > 0 {
+		cls := make([]string, 0, len(c.vioSeen))
+		for k := range c.vioSeen {
+			cls = append(cls, k)
+		}
+		sort.Strings(cls)
+		for _, k := range cls {
+			fmt.Printf("  class %-60s %d\n", k, c.vioSeen[k])
+		}
 		printed := 0
 		for _, v := range c.violations {
 			if v.Replay == "" {
